@@ -15,6 +15,7 @@ import (
 	"strings"
 	"testing"
 
+	cryptotypes "github.com/cosmos/cosmos-sdk/crypto/types"
 	"github.com/cosmos/cosmos-sdk/simapp/helpers"
 	sdk "github.com/cosmos/cosmos-sdk/types"
 	"github.com/ethereum/go-ethereum/accounts/abi"
@@ -22,6 +23,7 @@ import (
 	ethtypes "github.com/ethereum/go-ethereum/core/types"
 	"github.com/ethereum/go-ethereum/crypto"
 	abci "github.com/tendermint/tendermint/abci/types"
+	"github.com/tharsis/ethermint/crypto/ethsecp256k1"
 	"github.com/tharsis/ethermint/server/config"
 	"github.com/tharsis/ethermint/tests"
 	evm "github.com/tharsis/ethermint/x/evm/types"
@@ -51,7 +53,9 @@ const (
 	c03AccRelayer  = 5
 	c03AccU6       = 6
 	c03AccU7       = 7
-	c03NAcc        = 8
+	c03AccU8       = 8 // further sending accounts (own keys)
+	c03AccU9       = 9
+	c03NAcc        = 10
 )
 
 type c03PacketRec struct {
@@ -69,6 +73,7 @@ type c03World struct {
 	// every binding configured: chain, voucher id, origin chain, origin token id
 	packets map[string]*c03PacketRec // "src/dst/seq"
 	acc     [c03NAcc]common.Address
+	keys    map[int]cryptotypes.PrivKey // sending accounts: 0 (the chains' sender account), 8, 9
 }
 
 func c03ChainName(i int) string {
@@ -93,6 +98,15 @@ func newC03World(t *testing.T) *c03World {
 	w.acc[c03AccRelayer] = common.HexToAddress("0x00000000000000000000000000000000000c03e1")
 	w.acc[c03AccU6] = common.HexToAddress("0x00000000000000000000000000000000000c03a6")
 	w.acc[c03AccU7] = common.HexToAddress("0x00000000000000000000000000000000000c03a7")
+	w.keys = map[int]cryptotypes.PrivKey{c03AccUser: w.ch[0].SenderPrivKey}
+	for _, a := range []int{c03AccU8, c03AccU9} {
+		k, err := ethsecp256k1.GenerateKey()
+		if err != nil {
+			t.Fatal(err)
+		}
+		w.keys[a] = k
+		w.acc[a] = common.BytesToAddress(k.PubKey().Address().Bytes())
+	}
 	// clients between every ordered pair (no relayers yet)
 	for i := 0; i < c03NChains; i++ {
 		for j := i + 1; j < c03NChains; j++ {
@@ -152,13 +166,23 @@ func (w *c03World) callView(i int, a abi.ABI, contract common.Address, method st
 // sendTx executes an Ethereum transaction of the user account exactly like x/xibc/integration_test.go
 // (EvmKeeper.EthereumTx on the deliver context) and reports failure instead of aborting.
 func (w *c03World) sendTx(i int, to common.Address, value *big.Int, data []byte) (failed bool, vmErr string, events sdk.Events) {
+	return w.sendTxAs(i, c03AccUser, to, value, data)
+}
+
+// sendTxAs: the same for any of the keyed accounts (0, 8, 9).
+func (w *c03World) sendTxAs(i, acct int, to common.Address, value *big.Int, data []byte) (failed bool, vmErr string, events sdk.Events) {
 	c := w.ch[i]
+	key, ok := w.keys[acct]
+	if !ok {
+		w.t.Fatalf("account %d has no key", acct)
+	}
+	from := w.acc[acct]
 	sctx := c.GetContext()
 	chainID := c.App.EvmKeeper.ChainID()
-	nonce := c.App.EvmKeeper.GetNonce(sctx, c.SenderAddress)
+	nonce := c.App.EvmKeeper.GetNonce(sctx, from)
 	tx := evm.NewTx(chainID, nonce, &to, value, config.DefaultGasCap, big.NewInt(0), big.NewInt(0), big.NewInt(0), data, &ethtypes.AccessList{})
-	tx.From = c.SenderAddress.Hex()
-	if err := tx.Sign(ethtypes.LatestSignerForChainID(chainID), tests.NewSigner(c.SenderPrivKey)); err != nil {
+	tx.From = from.Hex()
+	if err := tx.Sign(ethtypes.LatestSignerForChainID(chainID), tests.NewSigner(key)); err != nil {
 		w.t.Fatal(err)
 	}
 	rsp, err := c.App.EvmKeeper.EthereumTx(sdk.WrapSDKContext(sctx), tx)
@@ -213,6 +237,13 @@ func (w *c03World) supply(i int, token common.Address) *big.Int {
 		return w.ch[i].App.BankKeeper.GetSupply(w.ch[i].GetContext(), "stake").Amount.BigInt()
 	}
 	return w.callView(i, w.erc20(), token, "totalSupply")[0].(*big.Int)
+}
+
+func (w *c03World) allowance(i int, token, owner common.Address) *big.Int {
+	if token == (common.Address{}) {
+		return big.NewInt(0)
+	}
+	return w.callView(i, w.erc20(), token, "allowance", owner, endpointcontract.EndpointContractAddress)[0].(*big.Int)
 }
 
 func (w *c03World) outTokens(i int, token common.Address, dst string) *big.Int {
